@@ -324,6 +324,23 @@ def run_unit(unit, tier='quick', tag='main', solver=None):
             oj = json.loads(out[out.index('{'):]) if '{' in out else {}
         except ValueError:
             oj = {}
+        # a function for which the solver reported concrete failed obligations AND ran out of its resource limit on the
+        # rest: the failures stand (they are reported as such); its other obligations are undecided, the function is not
+        # swapped for its assumed contract
+        partial = {}
+        kept = []
+        for d in tool_errs:
+            m_ = d.get('message') or ''
+            if 'Resource limit' in m_ or 'rlimit' in m_:
+                fns = set(fn_of[sp['line_start']] for sp in d.get('spans', [])
+                          if os.path.basename(sp['file_name']) == fname and sp['line_start'] < len(fn_of) and fn_of[sp['line_start']])
+                hit = [f for f in fns if any(map_error(v, lines, fn_of, blk_of, lab_of, fname)[3] == f for v in verif_errs)]
+                if hit:
+                    for f in hit:
+                        partial[f] = m_
+                    continue
+            kept.append(d)
+        tool_errs = kept
         if tool_errs or not oj.get('verification-results'):
             # attribute compile errors / unsupported constructs to the function that contains them and retry with
             # that function's contract assumed (its obligations become UNDECIDED, the rest of the unit is still decided)
@@ -385,6 +402,8 @@ def run_unit(unit, tier='quick', tag='main', solver=None):
     for d in diags:
         m = d.get('message', '')
         if 'Resource limit' in m or 'rlimit' in m or 'timed out' in m.lower():
+            if m in partial.values():
+                continue
             raise Undecided('unit %s: solver resource limit: %s' % (unit, m))
     # case-split units (@cases): the same functions are verified once per case, each variant assuming one case after
     # asserting that the cases are exhaustive; an obligation is discharged only if it is discharged in every variant
@@ -429,7 +448,7 @@ def run_unit(unit, tier='quick', tag='main', solver=None):
             wall = max(wall, wallk)
     res = dict(unit=unit, path=path, info=info, obligations=obligations, errors=errors, fres=fres, trusted=trusted, variants=n_var,
                allow=allow, verus=oj.get('verification-results'), times=oj.get('times-ms', {}), cmd=' '.join(cmd), wall=wall,
-               weave_wall=time.time() - t0 - wall, cached=was_cached, degraded=dict(force), version=oj.get('verus', {}), text=text, spec=u)
+               weave_wall=time.time() - t0 - wall, cached=was_cached, degraded=dict(force), partial=partial, version=oj.get('verus', {}), text=text, spec=u)
     return res
 
 
